@@ -129,7 +129,9 @@ func (v *printer) Printf(format string, args ...interface{}) {
 }
 
 func (v *printer) Println(args ...interface{}) {
-	if v.enab.Enabled(v.level) {
+	// Fatalln must exit even when the fatal level is disabled, like Fatal and
+	// Fatalf do, so the enabled-check shortcut applies below DPanic only.
+	if v.level >= zapcore.DPanicLevel || v.enab.Enabled(v.level) {
 		v.print(sprintln(args))
 	}
 }
